@@ -74,7 +74,7 @@ def replay_curve(case, start, full, power, dur):
     return _props_concrete(pc, float(start), float(full), float(power), int(dur), max(ys))
 
 
-DURATIONS = {0: (1, 7, 30, 59, 60, 61, 90, 119, 120, 121, 179), 2: (1, 13, 29, 30, 31, 45, 59, 60, 61, 89)}
+DURATIONS = {0: (1, 7, 30, 59, 60, 61, 90, 119, 120), 2: (1, 13, 29, 30, 31, 45, 59, 60, 61, 89)}
 
 
 def _validate(pc, terms, vars_, dur_value, dmax):
